@@ -14,8 +14,12 @@ use crate::cmd::Cli;
 
 #[cfg(target_pointer_width = "32")]
 const SCRATCH_ARENA_CAPACITY: usize = 64 * MEBI;
+// Address space only: pages are committed as they are used. The checker needs close to 1 KiB per
+// statement, and its per-statement tables all double at 2^18 entries, which is also the default
+// statement limit: with 256 MiB a 3.6 MB script of 262 200 assignments died with
+// "memory allocation of 8388608 bytes failed" instead of running without the analyses.
 #[cfg(target_pointer_width = "64")]
-const SCRATCH_ARENA_CAPACITY: usize = 256 * MEBI;
+const SCRATCH_ARENA_CAPACITY: usize = 1024 * MEBI;
 
 fn main() -> ExitCode {
     let cli = Cli::parse();
